@@ -1,12 +1,13 @@
 """C07 - backtest results up to any date do not depend on later market data."""
 import datetime as D
+import json
 import random
 
 from hypothesis import strategies as st
 
 from vlib import cal, market, sessgen, session
 from vlib.runner import Part, Result, Violation
-from vlib.sut import clear_caches
+from vlib.sut import clear_caches, load
 
 PROPERTY = 'C07'
 RULE = ('Paired sessions: world A and world B share the configuration and all market rows dated on or before a cut '
@@ -55,17 +56,40 @@ def run_case(case):
         mk_b[s], ch = make_b(rows, T, case['mode'], case['seed'] + i)
         changed = changed or ch
     syms = list(mk_a)
+    reuse = case.get('reuse_handler', False)
+
+    def world(path):
+        """One world: optionally a prelude session first, on the very same data handler object (as the shipped
+        examples do for strategy and benchmark), then the session under test."""
+        if not reuse:
+            return session.run_session(cfg, path, syms)
+        q = load()
+        ds = q.CSVDailyBarDataSource(path, q.Equity, adjust_prices=cfg.get('adjust', True), csv_symbols=list(syms))
+        dh = q.BacktestDataHandler(None, data_sources=[ds])
+        pre = json.loads(json.dumps(cfg))
+        pre['alpha'] = {'kind': 'fixed', 'weights': {'EQ:' + s: 1.0 for s in syms}}
+        pre['universe'] = {'kind': 'static', 'assets': ['EQ:' + s for s in syms]}
+        pre['burn_in'] = None
+        pre['long_only'], pre['buffer'] = True, 0.05
+        session.run_session(pre, path, syms, data_source=ds, data_handler=dh)
+        # ... and the handler has also answered queries over the whole file, including its last bars
+        end = cal.ts6(cfg['end'])
+        for a in ['EQ:' + s for s in syms]:
+            for back in (0, 1, 5, 30, 400):
+                for f in (dh.get_asset_latest_bid_price, dh.get_asset_latest_ask_price, dh.get_asset_latest_mid_price):
+                    f(end + D.timedelta(days=30 - back), a)
+        return session.run_session(cfg, path, syms, data_source=ds, data_handler=dh)
     clear_caches()
     with market.csv_dir(mk_a) as pa:
-        ra = session.run_session(cfg, pa, syms)
+        ra = world(pa)
         clear_caches()
-        ra2 = session.run_session(cfg, pa, syms)
+        ra2 = world(pa)
     da, da2 = session.digest(ra, Tend), session.digest(ra2, Tend)
     if da != da2 or (ra.error is None) != (ra2.error is None):
         return Result(['nondeterministic_skipped'], excluded='nondeterministic')
     clear_caches()
     with market.csv_dir(mk_b) as pb:
-        rb = session.run_session(cfg, pb, syms)
+        rb = world(pb)
     clear_caches()
     db = session.digest(rb, Tend)
     ea = ra.error if ra.error and ra.error[2] <= Tend else None
@@ -81,6 +105,8 @@ def run_case(case):
     cls += [cfg['rebalance'], cfg['alpha']['kind'], cfg['universe']['kind'], 'future_' + case['mode']]
     fills_before = sum(1 for f in ra.fills if f[0] <= Tend)
     reb_after = sum(1 for c in ra.calls if c > Tend)
+    if reuse:
+        cls.append('handler_reused_after_another_session')
     if ra.error:
         cls.append('session_error_' + ra.error[0])
     if ea:
@@ -115,7 +141,7 @@ def cases(draw):
     cut = d0 + D.timedelta(days=draw(st.one_of(st.integers(n // 4, (3 * n) // 4), st.integers(0, n))))
     return {'cfg': cfg, 'market': mk, 'cut': [cut.year, cut.month, cut.day],
             'mode': draw(st.sampled_from(['rewrite', 'rewrite', 'delete', 'mix'])), 'seed': draw(st.integers(0, 10 ** 6)),
-            'labels': labels + lab}
+            'labels': labels + lab, 'reuse_handler': draw(st.sampled_from([False, False, True]))}
 
 
 PARTS = [
